@@ -316,6 +316,16 @@ def closures(ctx, crate, crs, tag):
                 neg = [i for i, t in cb.calls() if t.get("f") and t["f"]["name"] == "negative" and q.edge_dominates(cb, c.bb, ft, i)]
                 on_b = all(cb.origin(cb.blocks[i]["term"]["args"][0])["k"] == "arg" and cb.origin(cb.blocks[i]["term"]["args"][0])["l"] == 3 for i in pos + neg)
                 okp = bool(pos) and bool(neg) and on_b
+        if not okp:
+            # `Literal::new(helper, !positive)`: negate = not(positive) is the same selection (positive() is new(v, false))
+            for i, t in cb.calls():
+                f = t.get("f")
+                if f and f["name"] == "new" and "Literal" in f["path"] and len(t["args"]) == 2:
+                    a0 = cb.origin(t["args"][0])
+                    nd, _ = q.origin_thru(cb, t["args"][1], transparent=set())
+                    if a0["k"] == "arg" and a0["l"] == 3 and nd.get("k") == "rvalue" and nd["r"]["k"] == "un" and nd["r"]["op"] == "Not":
+                        src = cb.origin(nd["r"]["a"])
+                        okp = src["k"] == "arg" and src["l"] == 4
         ctx.ob(R, cb.key, "boolean-selects-helper-polarity", okp, cb.loc(), "positive=true -> helper.positive(), false -> helper.negative()")
         fm = [(i, t) for i, t in cb.calls() if t.get("f") and t["f"]["name"] == "forbid_multiple"]
         okc = False
